@@ -527,7 +527,29 @@ func checkOverrideLookup(w *World, r *Report) {
 		var sites []ssa.Instruction
 		instrsOf(fn, func(in ssa.Instruction) {
 			c, ok := in.(ssa.CallInstruction)
-			if !ok || !c.Common().IsInvoke() || c.Common().Method.Name() != "Render" || !isNamed(c.Common().Value.Type(), twigPath, "Node") {
+			if !ok {
+				return
+			}
+			if !c.Common().IsInvoke() {
+				// the body handed to a generic "render these nodes" helper
+				if g := c.Common().StaticCallee(); g != nil && isTwigFn(g) {
+					for i, a := range c.Common().Args {
+						if i >= len(g.Params) || !rendersParam(g, g.Params[i]) {
+							continue
+						}
+						var os []fieldRef
+						originsAll(a, 0, map[ssa.Value]bool{}, &os)
+						for _, o := range os {
+							if o.typ == "BlockNode" && o.field == "body" {
+								sites = append(sites, in)
+								return
+							}
+						}
+					}
+				}
+				return
+			}
+			if c.Common().Method.Name() != "Render" || !isNamed(c.Common().Value.Type(), twigPath, "Node") {
 				return
 			}
 			var os []fieldRef
